@@ -66,6 +66,8 @@ def state_labels(kind, tier):
     labs = ['plain', 'mirrored']
     if kind in ('tri', 'quad', 'tet', 'hex'):
         labs.append('order2-curved')
+        if tier == 'thorough':
+            labs.append('order2-straight')
     return labs
 
 
@@ -254,9 +256,10 @@ def run_case(out, m, sname, lab, kind, dim, an, bn, blab, ub, vb, mode, tier, nk
     combos = [(iu, iv) for iu in range(len(uops)) for iv in range(len(vops))]
     if mode == 'self':
         combos = [c for c in combos if c[0] != c[1]][:3] + [(0, 0)]
-    elif len(combos) > 9:
-        stp = len(combos) / 9.0
-        combos = [combos[int(i * stp)] for i in range(9)]
+    elif len(combos) > (9 if tier == 'quick' else 30):
+        ncap = 9 if tier == 'quick' else 30
+        stp = len(combos) / float(ncap)
+        combos = [combos[int(i * stp)] for i in range(ncap)]
     for n_c, (iu, iv) in enumerate(combos):
         cu, lu, fu = uops[iu]
         cv, lv, fv = vops[iv]
